@@ -396,9 +396,18 @@ type gen struct {
 	// pointer slots: t := (*unsafe.Pointer)(p) makes t another name for the slot p addresses;
 	// t := *(*unsafe.Pointer)(p) holds the pointer stored there (nil or the address of a value)
 	aliases map[string]string
+	aliasT  map[string]string // for an alias of a pointer to a struct: the struct's name
+	// p := unsafe.Add(arr, i*EltSize): p names element i of the array arr (index evaluated at the definition)
+	elemPlaces map[types.Object]elemPlace
+	placeBase  map[string]ast.Expr // (pre-scan) the array each element-place variable points into
 	optVars map[string]bool
 	// unsafe.Pointer parameters that address a pointer slot (read as *(*unsafe.Pointer)(p) into a fresh variable or through an alias)
 	slotParam map[string]bool
+}
+
+type elemPlace struct {
+	base ast.Expr // the array
+	idx  string   // Gallina variable holding the index
 }
 
 // optExpr: e denotes a pointer value that may be nil (a loaded pointer): returns its Gallina term (an option)
@@ -415,7 +424,7 @@ func (g *gen) optExpr(e ast.Expr) (string, bool) {
 	}
 	if st, ok := e.(*ast.StarExpr); ok {
 		if id, ok := st.X.(*ast.Ident); ok {
-			if base, ok := g.aliases[id.Name]; ok {
+			if base, ok := g.aliases[id.Name]; ok && g.aliasT[id.Name] == "" {
 				return "(go_load_opt " + sane(base) + ")", true
 			}
 		}
@@ -452,6 +461,67 @@ func memBaseOf(e ast.Expr) (string, ast.Expr, bool) {
 		return "", nil, false
 	}
 	return pid.Name, b.Y, true
+}
+
+// elemAddrOf: e is the address of element i of the array at X:
+//   unsafe.Pointer(uintptr(X) + uintptr(i)*c.EltSize)   unsafe.Add(X, uintptr(i)*c.EltSize)   unsafe.Add(X, i*int(c.EltSize))
+// returns X and i
+func elemAddrOf(e ast.Expr) (ast.Expr, ast.Expr, bool) {
+	c, ok := e.(*ast.CallExpr)
+	if !ok {
+		return nil, nil, false
+	}
+	var base, off ast.Expr
+	if sel, ok := c.Fun.(*ast.SelectorExpr); ok && len(c.Args) == 2 {
+		if id, ok := sel.X.(*ast.Ident); ok && id.Name == "unsafe" && sel.Sel.Name == "Add" {
+			base, off = c.Args[0], c.Args[1]
+		}
+	}
+	if base == nil && len(c.Args) == 1 {
+		tv, has := info.Types[c.Fun]
+		if has && tv.IsType() && isUnsafePtr(tv.Type) {
+			if b, ok := c.Args[0].(*ast.BinaryExpr); ok && b.Op == token.ADD {
+				if inner, ok := b.X.(*ast.CallExpr); ok && len(inner.Args) == 1 {
+					if id, ok := inner.Fun.(*ast.Ident); ok && id.Name == "uintptr" {
+						base, off = inner.Args[0], b.Y
+					}
+				}
+			}
+		}
+	}
+	if base == nil || !isUnsafePtr(info.Types[base].Type) {
+		return nil, nil, false
+	}
+	m, ok := off.(*ast.BinaryExpr)
+	if !ok || m.Op != token.MUL {
+		return nil, nil, false
+	}
+	strip := func(x ast.Expr) ast.Expr {
+		for {
+			switch y := x.(type) {
+			case *ast.ParenExpr:
+				x = y.X
+				continue
+			case *ast.CallExpr:
+				if tv, ok := info.Types[y.Fun]; ok && tv.IsType() && len(y.Args) == 1 {
+					x = y.Args[0]
+					continue
+				}
+			}
+			return x
+		}
+	}
+	isEltSize := func(x ast.Expr) bool {
+		sel, ok := strip(x).(*ast.SelectorExpr)
+		return ok && sel.Sel.Name == "EltSize"
+	}
+	switch {
+	case isEltSize(m.Y):
+		return base, strip(m.X), true
+	case isEltSize(m.X):
+		return base, strip(m.Y), true
+	}
+	return nil, nil, false
 }
 
 // checksErrAtOnce: the statement list starts with  if err != nil { return ..., <an error> }
@@ -676,6 +746,12 @@ func (g *gen) expr(e ast.Expr, pre *[]string) string {
 		return sane(name)
 	}
 	switch x := e.(type) {
+	case *ast.StarExpr:
+		if id, ok := x.X.(*ast.Ident); ok {
+			if base, ok := g.aliases[id.Name]; ok && g.aliasT[id.Name] != "" {
+				return sane(base) // *h: the record h is another name for
+			}
+		}
 	case *ast.ParenExpr:
 		return g.expr(x.X, pre)
 	case *ast.IndexExpr:
@@ -699,7 +775,12 @@ func (g *gen) expr(e ast.Expr, pre *[]string) string {
 	case *ast.SelectorExpr:
 		if id, ok := x.X.(*ast.Ident); ok {
 			if g.recv != "" && id.Name == g.recv {
-				return fmt.Sprintf("(%s_%s %s)", g.recvT, x.Sel.Name, sane(g.recv))
+				if sel, ok := info.Selections[x]; !ok || sel.Kind() != types.FieldVal || len(sel.Index()) == 1 {
+					return fmt.Sprintf("(%s_%s %s)", g.recvT, x.Sel.Name, sane(g.recv))
+				}
+			}
+			if base, ok := g.aliases[id.Name]; ok && g.aliasT[id.Name] != "" {
+				return fmt.Sprintf("(%s_%s %s)", g.aliasT[id.Name], x.Sel.Name, sane(base))
 			}
 			if pl, ok := g.places[id.Name]; ok {
 				t := g.fresh("cur")
@@ -710,6 +791,21 @@ func (g *gen) expr(e ast.Expr, pre *[]string) string {
 		if xt := info.Types[x.X].Type; xt != nil {
 			if p, ok := xt.(*types.Pointer); ok {
 				xt = p.Elem()
+			}
+			if sel, ok := info.Selections[x]; ok && sel.Kind() == types.FieldVal && len(sel.Index()) > 1 {
+				// a field promoted from embedded structs: through each of them
+				term := g.expr(x.X, pre)
+				cur := xt
+				for _, idx := range sel.Index() {
+					n, ok := structName(cur)
+					if !ok {
+						fail(e, "unsupported selector expression")
+					}
+					fld := cur.Underlying().(*types.Struct).Field(idx)
+					term = fmt.Sprintf("(%s_%s %s)", n, fld.Name(), term)
+					cur = fld.Type()
+				}
+				return term
 			}
 			if n, ok := structName(xt); ok {
 				return fmt.Sprintf("(%s_%s %s)", n, x.Sel.Name, g.expr(x.X, pre))
@@ -745,6 +841,15 @@ func (g *gen) expr(e ast.Expr, pre *[]string) string {
 	case *ast.Ident:
 		if x.Name == "true" || x.Name == "false" {
 			return x.Name
+		}
+		if pl, ok := g.elemPlaces[info.Uses[x]]; ok && info.Uses[x] != nil {
+			if !g.mon {
+				fail(e, "element address in a function that is not monadic")
+			}
+			usedMem = true
+			t := g.fresh("el")
+			*pre = append(*pre, fmt.Sprintf("do %s <- go_elem \"%s.%s\" %s %s;", t, g.fn.Name.Name, t, g.expr(pl.base, pre), pl.idx))
+			return t
 		}
 		if x.Name == "nil" {
 			if _, isNil := info.Uses[x].(*types.Nil); isNil {
@@ -935,7 +1040,14 @@ func (g *gen) binary(x *ast.BinaryExpr, pre *[]string) string {
 	case token.QUO, token.REM:
 		// only by a non-zero constant (anything else can panic: outside the subset)
 		if dv := info.Types[x.Y].Value; dv == nil || constant.Sign(dv) == 0 {
-			fail(x, "division by something other than a non-zero constant")
+			// the divisor is computed: a zero divisor panics
+			if !g.mon || !k.signed || x.Op != token.QUO {
+				fail(x, "division by something other than a non-zero constant")
+			}
+			usedMem = true
+			t := g.fresh("dv")
+			*pre = append(*pre, fmt.Sprintf("do %s <- go_sdiv \"%s.%s\" %s %s %s;", t, g.fn.Name.Name, t, wd(k), a, b))
+			return t
 		}
 		name := "div"
 		if x.Op == token.REM {
@@ -970,6 +1082,21 @@ func (g *gen) binary(x *ast.BinaryExpr, pre *[]string) string {
 
 func (g *gen) call(x *ast.CallExpr, pre *[]string) string {
 	// conversion?
+	if base, idx, ok := elemAddrOf(x); ok {
+		// the address of element idx of the array at base: the element (out of range: a fault, conservatively)
+		if !g.mon {
+			fail(x, "element address in a function that is not monadic")
+		}
+		usedMem = true
+		k, _ := intKind(info.Types[idx].Type)
+		iv := g.expr(idx, pre)
+		if !k.signed {
+			iv = "(Z.of_N " + iv + ")"
+		}
+		t := g.fresh("el")
+		*pre = append(*pre, fmt.Sprintf("do %s <- go_elem \"%s.%s\" %s %s;", t, g.fn.Name.Name, t, g.expr(base, pre), iv))
+		return t
+	}
 	if base, off, ok := memBaseOf(x); ok {
 		if !g.mem[base] {
 			fail(x, "pointer arithmetic on something other than a struct address parameter")
@@ -1016,6 +1143,11 @@ func (g *gen) call(x *ast.CallExpr, pre *[]string) string {
 				els = append(els, g.expr(a, pre))
 			}
 			return "(" + base + " ++ [" + strings.Join(els, "; ") + "])"
+		}
+		if f.Name == "unsafe_NewArray" && len(x.Args) == 2 {
+			// a new backing array: n zero elements (the element type travels as its zero value)
+			usedMem = true
+			return fmt.Sprintf("(go_new_array %s %s)", g.expr(x.Args[0], pre), g.expr(x.Args[1], pre))
 		}
 		if _, ok := funcs[f.Name]; ok {
 			var args []string
@@ -1092,6 +1224,13 @@ func (g *gen) call(x *ast.CallExpr, pre *[]string) string {
 			recvE := g.expr(f.X, pre)
 			var args []string
 			for _, a := range x.Args {
+				if id, ok := a.(*ast.Ident); ok && id.Name == "nil" {
+					if sig, ok := info.Types[x.Fun].Type.(*types.Signature); ok && len(args) < sig.Params().Len() && isUnsafePtr(sig.Params().At(len(args)).Type()) {
+						usedMem = true
+						args = append(args, "go_nilptr") // Size(nil, nil): the width of a fixed-size element
+						continue
+					}
+				}
 				if o, ok := g.optExpr(a); ok {
 					// a pointer that may be nil handed to the codec: the codec works on what it points to
 					av := g.fresh("pt")
@@ -1364,6 +1503,37 @@ func (g *gen) ret(r *ast.ReturnStmt, wrap func(string) string) string {
 			}
 		}
 	}
+	if len(res) == 1 && len(g.ptrsOut) == 1 && (g.recv == "" || g.recvRO) {
+		if c, ok := res[0].(*ast.CallExpr); ok {
+			if sel, ok := c.Fun.(*ast.SelectorExpr); ok {
+				if mk := methodKey(sel); mk != "" && len(calleeOuts[mk]) == 1 && !recvWritten[mk] {
+					// return c.m(data, ptr): the callee writes through the same pointer and hands it back in front of its results
+					fd := funcs[mk]
+					var pnames []string
+					for _, fl := range fd.Type.Params.List {
+						for _, nm := range fl.Names {
+							pnames = append(pnames, nm.Name)
+						}
+					}
+					okFwd := false
+					var args []string
+					if usesRecv[mk] {
+						args = append(args, g.expr(sel.X, &pre))
+					}
+					for i, a := range c.Args {
+						if id, isId := a.(*ast.Ident); isId && i < len(pnames) && pnames[i] == calleeOuts[mk][0] && id.Name == g.ptrsOut[0] {
+							okFwd = true
+						}
+						args = append(args, g.expr(a, &pre))
+					}
+					if okFwd {
+						t := g.fresh("r")
+						return strings.Join(pre, " ") + fmt.Sprintf(" do %s <- %s fuel %s; %s", t, coqName(fd), strings.Join(args, " "), wrap(t))
+					}
+				}
+			}
+		}
+	}
 	if len(res) == 1 && (g.recv == "" || g.recvRO) && len(g.ptrsOut) == 0 {
 		if c, ok := res[0].(*ast.CallExpr); ok {
 			if tv := info.Types[c]; tv.Type != nil {
@@ -1413,6 +1583,9 @@ func (g *gen) assigned(stmts []ast.Stmt, out map[string]bool) {
 			case *ast.IndexExpr:
 				e = x.X
 				continue
+			case *ast.StarExpr:
+				e = x.X
+				continue
 			case *ast.Ident:
 				if x.Name == "_" {
 					return
@@ -1423,6 +1596,10 @@ func (g *gen) assigned(stmts []ast.Stmt, out map[string]bool) {
 				}
 				if obj != nil && g.scopeLo <= obj.Pos() && obj.Pos() < g.scopeHi {
 					return // declared inside the loop body: a fresh variable in every iteration
+				}
+				if base, isAlias := g.aliases[x.Name]; isAlias {
+					out[base] = true
+					return
 				}
 				if _, isPlace := g.places[x.Name]; isPlace || (g.recv != "" && x.Name == g.recv) {
 					out[g.recv] = true
@@ -1451,6 +1628,21 @@ func (g *gen) assigned(stmts []ast.Stmt, out map[string]bool) {
 				if sel, ok := a.Fun.(*ast.SelectorExpr); ok && sel.Sel.Name == "Read" && isCodecItf(info.Types[sel.X].Type) && len(a.Args) == 3 {
 					if base, _, ok := memBaseOf(a.Args[1]); ok {
 						out[base] = true
+					}
+					if b, _, ok := elemAddrOf(a.Args[1]); ok {
+						root(b)
+					}
+					if id, ok := a.Args[1].(*ast.Ident); ok {
+						if b, ok := g.placeBase[id.Name]; ok {
+							root(b)
+						}
+					}
+				}
+				if f, ok := a.Fun.(*ast.Ident); ok && f.Name == "typedmemclr" && len(a.Args) == 2 {
+					if id, ok := a.Args[1].(*ast.Ident); ok {
+						if b, ok := g.placeBase[id.Name]; ok {
+							root(b)
+						}
 					}
 				}
 				if sel, ok := a.Fun.(*ast.SelectorExpr); ok {
@@ -1500,8 +1692,8 @@ func (g *gen) block(stmts []ast.Stmt, k string, retwrap func(string) string, ind
 			for i := range x.Lhs {
 				if id, ok := x.Lhs[i].(*ast.Ident); ok && x.Tok == token.DEFINE {
 					if _, isAlias := g.aliases[id.Name]; isAlias {
-						if _, t, ok := ptrConvOf(x.Rhs[i]); ok && isUnsafePtr(t) {
-							continue // another name for the slot: nothing to compute
+						if _, _, ok := ptrConvOf(x.Rhs[i]); ok {
+							continue // another name for what the parameter addresses: nothing to compute
 						}
 					}
 					if g.optVars[id.Name] {
@@ -1510,6 +1702,20 @@ func (g *gen) block(stmts []ast.Stmt, k string, retwrap func(string) string, ind
 							out += fmt.Sprintf("let %s := go_load_opt %s in\n%s", sane(id.Name), sane(name), ind)
 							continue
 						}
+					}
+				}
+				if id, ok := x.Lhs[i].(*ast.Ident); ok && x.Tok == token.DEFINE {
+					if eb, ei, isElem := elemAddrOf(x.Rhs[i]); isElem {
+						ik, _ := intKind(info.Types[ei].Type)
+						iv := g.expr(ei, &pre)
+						if !ik.signed {
+							iv = "(Z.of_N " + iv + ")"
+						}
+						name := sane(id.Name) + "_at"
+						g.elemPlaces[info.Defs[id]] = elemPlace{base: eb, idx: name}
+						out += strings.Join(pre, "\n"+ind) + nl(pre, ind) + fmt.Sprintf("let %s := %s in\n%s", name, iv, ind)
+						pre = nil
+						continue
 					}
 				}
 				// s := &j.f[idx] : a place
@@ -1576,6 +1782,35 @@ func (g *gen) block(stmts []ast.Stmt, k string, retwrap func(string) string, ind
 				usedMem = true
 				recvE := g.expr(sel.X, &pre)
 				dataArg := g.expr(call.Args[0], &pre)
+				var eb, ei ast.Expr
+				isElem, placeIdx := false, ""
+				if id, ok := call.Args[1].(*ast.Ident); ok {
+					if pl, ok := g.elemPlaces[info.Uses[id]]; ok {
+						eb, isElem, placeIdx = pl.base, true, pl.idx
+					}
+				}
+				if !isElem {
+					eb, ei, isElem = elemAddrOf(call.Args[1])
+				}
+				if isElem {
+					// ... into element i of the array at eb (a field of a record this function may write)
+					arr := g.expr(eb, &pre)
+					iv := placeIdx
+					if iv == "" {
+						ik, _ := intKind(info.Types[ei].Type)
+						iv = g.expr(ei, &pre)
+						if !ik.signed {
+							iv = "(Z.of_N " + iv + ")"
+						}
+					}
+					wtArg := g.expr(call.Args[2], &pre)
+					cd, el, rr, pv, na := g.fresh("cd"), g.fresh("el"), g.fresh("rd"), g.fresh("pv"), g.fresh("arr")
+					pre = append(pre, fmt.Sprintf("do %s <- go_elem \"%s.%s\" %s %s;", el, g.fn.Name.Name, el, arr, iv))
+					pre = append(pre, fmt.Sprintf("do %s <- go_itf \"%s.%s\" %s;", cd, g.fn.Name.Name, cd, recvE))
+					pre = append(pre, fmt.Sprintf("do %s <- gc_Read %s fuel %s %s %s;", rr, cd, dataArg, el, wtArg))
+					out := strings.Join(pre, "\n"+ind) + nl(pre, ind) + fmt.Sprintf("let '(%s, %s) := %s in\n%sdo %s <- go_set_elem \"%s.%s\" %s %s %s;\n%s", pv, names[0], rr, ind, na, g.fn.Name.Name, na, arr, iv, pv, ind)
+					return out + g.store(eb, na, ind) + after
+				}
 				base, offE, isPlace := memBaseOf(call.Args[1])
 				if !isPlace || !g.mem[base] {
 					fail(x, "Read through the Codec interface into something other than a field of a struct address parameter")
@@ -1648,6 +1883,49 @@ func (g *gen) block(stmts []ast.Stmt, k string, retwrap func(string) string, ind
 						return strings.Join(pre, "\n"+ind) + nl(pre, ind) + fmt.Sprintf("let %s := (go_le_put %d %s) in\n%s", sane(id.Name), width, v, ind) + rest()
 					}
 				}
+			}
+		}
+		if c, ok := x.X.(*ast.CallExpr); ok {
+			if f, ok := c.Fun.(*ast.Ident); ok && f.Name == "typedmemclr" && len(c.Args) == 2 {
+				// typedmemclr(unpackEFace(T).data, p): the element p names becomes the zero value (T travels as its zero value)
+				var pre []string
+				zero := ""
+				if sel, ok := c.Args[0].(*ast.SelectorExpr); ok && sel.Sel.Name == "data" {
+					if uc, ok := sel.X.(*ast.CallExpr); ok && len(uc.Args) == 1 {
+						if uf, ok := uc.Fun.(*ast.Ident); ok && uf.Name == "unpackEFace" {
+							zero = g.expr(uc.Args[0], &pre)
+						}
+					}
+				}
+				id, isId := c.Args[1].(*ast.Ident)
+				if zero == "" || !isId {
+					fail(s, "unsupported form of typedmemclr")
+				}
+				pl, ok := g.elemPlaces[info.Uses[id]]
+				if !ok {
+					fail(s, "typedmemclr of something other than an element")
+				}
+				usedMem = true
+				arr := g.expr(pl.base, &pre)
+				na := g.fresh("arr")
+				return strings.Join(pre, "\n"+ind) + nl(pre, ind) + fmt.Sprintf("do %s <- go_set_elem \"%s.%s\" %s %s %s;\n%s", na, g.fn.Name.Name, na, arr, pl.idx, zero, ind) + g.store(pl.base, na, ind) + rest()
+			}
+			if f, ok := c.Fun.(*ast.Ident); ok && f.Name == "typedslicecopy" && len(c.Args) == 3 {
+				// typedslicecopy(T, dst, src): the first min(len) elements of src over those of dst
+				dst, isId := c.Args[1].(*ast.Ident)
+				if !isId {
+					fail(s, "typedslicecopy into something other than a variable")
+				}
+				var pre []string
+				src := g.expr(c.Args[2], &pre)
+				usedMem = true
+				tn, isStruct := structName(info.Types[c.Args[1]].Type)
+				if !isStruct {
+					fail(s, "typedslicecopy of something other than slice headers")
+				}
+				d := sane(dst.Name)
+				return strings.Join(pre, "\n"+ind) + nl(pre, ind) + fmt.Sprintf("let %s := set_%s_Data %s (go_copy_elems (%s_Data %s) (%s_Data %s) (Z.min (%s_Len %s) (%s_Len %s))) in\n%s",
+					d, tn, d, tn, d, tn, src, tn, d, tn, src, ind) + rest()
 			}
 		}
 		// a call of a method that changes a local struct variable: e.m(args)
@@ -1789,6 +2067,9 @@ func (g *gen) store(lhs ast.Expr, v string, ind string) string {
 	switch l := lhs.(type) {
 	case *ast.StarExpr:
 		if id, ok := l.X.(*ast.Ident); ok {
+			if base, ok := g.aliases[id.Name]; ok && g.aliasT[id.Name] != "" {
+				return fmt.Sprintf("let %s := %s in\n%s", sane(base), v, ind) // *h = nh: the whole record
+			}
 			if base, ok := g.aliases[id.Name]; ok {
 				usedMem = true
 				return fmt.Sprintf("let %s := go_store_opt %s %s in\n%s", sane(base), sane(base), v, ind)
@@ -1803,6 +2084,9 @@ func (g *gen) store(lhs ast.Expr, v string, ind string) string {
 		}
 		if g.recv != "" && id.Name == g.recv {
 			return fmt.Sprintf("let %s := set_%s_%s %s %s in\n%s", sane(g.recv), g.recvT, l.Sel.Name, sane(g.recv), v, ind)
+		}
+		if base, ok := g.aliases[id.Name]; ok && g.aliasT[id.Name] != "" {
+			return fmt.Sprintf("let %s := set_%s_%s %s %s in\n%s", sane(base), g.aliasT[id.Name], l.Sel.Name, sane(base), v, ind)
 		}
 		if n, ok := structName(info.Types[l.X].Type); ok {
 			if _, isPlace := g.places[id.Name]; !isPlace {
@@ -1943,6 +2227,15 @@ func (g *gen) carried(body []ast.Stmt, post ast.Stmt, declaredInLoop map[string]
 
 // varType finds the Coq type of a variable of the current function by name
 func (g *gen) varType(name string, body []ast.Stmt, post ast.Stmt) string {
+	if t, ok := g.ptrs[name]; ok && !g.mem[name] {
+		// an unsafe.Pointer parameter: the value it addresses travels, at the type it is used at
+		sig := info.Defs[g.fn.Name].Type().(*types.Signature)
+		for i := 0; i < sig.Params().Len(); i++ {
+			if sig.Params().At(i).Name() == name && isUnsafePtr(sig.Params().At(i).Type()) {
+				return coqType(t, g.fn)
+			}
+		}
+	}
 	var found types.Type
 	ast.Inspect(g.fn, func(n ast.Node) bool {
 		if id, ok := n.(*ast.Ident); ok && id.Name == name {
@@ -2270,7 +2563,19 @@ func (g *gen) function() string {
 			g.ptrs[name] = t
 		}
 	}
-	g.aliases, g.optVars, g.slotParam = map[string]string{}, map[string]bool{}, map[string]bool{}
+	g.aliases, g.optVars, g.slotParam, g.aliasT = map[string]string{}, map[string]bool{}, map[string]bool{}, map[string]string{}
+	g.elemPlaces = map[types.Object]elemPlace{}
+	g.placeBase = map[string]ast.Expr{}
+	ast.Inspect(fd.Body, func(n ast.Node) bool {
+		if a, ok := n.(*ast.AssignStmt); ok && a.Tok == token.DEFINE && len(a.Lhs) == 1 && len(a.Rhs) == 1 {
+			if id, ok := a.Lhs[0].(*ast.Ident); ok {
+				if eb, _, isElem := elemAddrOf(a.Rhs[0]); isElem {
+					g.placeBase[id.Name] = eb
+				}
+			}
+		}
+		return true
+	})
 	ast.Inspect(fd.Body, func(n ast.Node) bool {
 		a, ok := n.(*ast.AssignStmt)
 		if !ok || a.Tok != token.DEFINE || len(a.Lhs) != 1 || len(a.Rhs) != 1 {
@@ -2290,6 +2595,14 @@ func (g *gen) function() string {
 				g.slotParam[name] = true
 				g.aliases[id.Name] = name
 			}
+		} else if name, t, ok := ptrConvOf(a.Rhs[0]); ok {
+			// h := (*T)(ptr) for a struct T: h is another name for the record ptr addresses
+			if sn, isStruct := structName(t); isStruct {
+				if o := info.Uses[findIdent(a.Rhs[0], name)]; o != nil && isParamOf(fd, o) {
+					g.aliases[id.Name] = name
+					g.aliasT[id.Name] = sn
+				}
+			}
 		}
 		return true
 	})
@@ -2304,9 +2617,56 @@ func (g *gen) function() string {
 						}
 					}
 				}
+				if sel, ok := l.(*ast.SelectorExpr); ok {
+					if id, ok := sel.X.(*ast.Ident); ok {
+						if base, ok := g.aliases[id.Name]; ok {
+							written[base] = true
+						}
+					}
+				}
+			}
+		case *ast.IncDecStmt:
+			if sel, ok := x.X.(*ast.SelectorExpr); ok {
+				if id, ok := sel.X.(*ast.Ident); ok {
+					if base, ok := g.aliases[id.Name]; ok {
+						written[base] = true
+					}
+				}
 			}
 		case *ast.CallExpr:
+			markBase := func(b ast.Expr) {
+				if bs, ok := b.(*ast.SelectorExpr); ok {
+					if id, ok := bs.X.(*ast.Ident); ok {
+						if base, ok := g.aliases[id.Name]; ok {
+							written[base] = true
+						}
+					}
+				}
+			}
+			if f, ok := x.Fun.(*ast.Ident); ok && f.Name == "typedmemclr" && len(x.Args) == 2 {
+				if id, ok := x.Args[1].(*ast.Ident); ok {
+					if b, ok := g.placeBase[id.Name]; ok {
+						markBase(b)
+					}
+				}
+			}
 			if sel, ok := x.Fun.(*ast.SelectorExpr); ok && sel.Sel.Name == "Read" && isCodecItf(info.Types[sel.X].Type) && len(x.Args) == 3 {
+				if id, ok := x.Args[1].(*ast.Ident); ok {
+					if b, ok := g.placeBase[id.Name]; ok {
+						markBase(b)
+					}
+				}
+			}
+			if sel, ok := x.Fun.(*ast.SelectorExpr); ok && sel.Sel.Name == "Read" && isCodecItf(info.Types[sel.X].Type) && len(x.Args) == 3 {
+				if b, _, ok := elemAddrOf(x.Args[1]); ok {
+					if bs, ok := b.(*ast.SelectorExpr); ok {
+						if id, ok := bs.X.(*ast.Ident); ok {
+							if base, ok := g.aliases[id.Name]; ok {
+								written[base] = true
+							}
+						}
+					}
+				}
 				if st, ok := x.Args[1].(*ast.StarExpr); ok {
 					if id, ok := st.X.(*ast.Ident); ok {
 						if base, ok := g.aliases[id.Name]; ok {
@@ -2636,6 +2996,37 @@ func main() {
 	for f := range want {
 		fail(nil, "function %s not found in %s/%s", f, pkgdir, onlyFile)
 	}
+	// a method that calls, on its own receiver, a method that reads its receiver needs the receiver too
+	for changed := true; changed; {
+		changed = false
+		for _, n := range order {
+			fd := funcs[n]
+			if fd.Recv == nil || usesRecv[n] || len(fd.Recv.List[0].Names) == 0 {
+				continue
+			}
+			rn := fd.Recv.List[0].Names[0]
+			need := false
+			ast.Inspect(fd.Body, func(x ast.Node) bool {
+				if c, ok := x.(*ast.CallExpr); ok {
+					if sel, ok := c.Fun.(*ast.SelectorExpr); ok {
+						if id, ok := sel.X.(*ast.Ident); ok && info.Uses[id] != nil && info.Uses[id] == info.Defs[rn] {
+							if mk := methodKey(sel); mk != "" && usesRecv[mk] {
+								// only when the callee is a method of the same receiver type (not of an embedded, stateless one)
+								if recvBase(funcs[mk]) == recvBase(fd) {
+									need = true
+								}
+							}
+						}
+					}
+				}
+				return true
+			})
+			if need {
+				usesRecv[n] = true
+				changed = true
+			}
+		}
+	}
 	// which methods write their receiver, which unsafe.Pointer parameters address a struct in memory
 	rootIsRecv := func(fd *ast.FuncDecl, e ast.Expr) bool {
 		rn := fd.Recv.List[0].Names[0]
@@ -2849,6 +3240,9 @@ func main() {
 				return
 			}
 		}
+		if nt, isNamed := t.(*types.Named); isNamed && nt.Obj().Pkg() != pkg {
+			return // a type of another package (time.Time): carried as a primitive
+		}
 		if n, ok := structName(t); ok && !seenRec[n] {
 			seenRec[n] = true
 			st := t.Underlying().(*types.Struct)
@@ -2862,6 +3256,21 @@ func main() {
 		if fd := funcs[n]; fd.Recv != nil && usesRecv[n] {
 			addRec(info.Defs[fd.Recv.List[0].Names[0]].Type())
 		}
+		if externMod[n] != "" {
+			continue
+		}
+		ast.Inspect(funcs[n].Body, func(x ast.Node) bool {
+			if e, ok := x.(ast.Expr); ok {
+				if _, t, ok := derefOf(e); ok {
+					addRec(t)
+				} else if _, isCall := e.(*ast.CallExpr); isCall {
+					if _, t, ok := ptrConvOf(e); ok {
+						addRec(t)
+					}
+				}
+			}
+			return true
+		})
 	}
 	out.WriteString(recordDefs(recs))
 	out.WriteString("\n")
